@@ -403,9 +403,66 @@ class ExecSuite(Suite):
         lines.append("end")
         return {"id": 0, "lines": lines}
 
+    def gen_template(self, rng):
+        """structured programs: round-robin rings, wake chains, spawn trees"""
+        kind = rng.choice(["ring", "chain", "tree", "fan"])
+        via = rng.choice(["promise", "mutex", "queue"])
+        lines = ["case 0 exec %s" % via]
+        n = rng.randint(2, 7)
+        if kind == "ring":        # cooperative_multitasking.cpp: k tasks pausing j times
+            j = rng.randint(1, 4)
+            for c in range(1, n + 1):
+                lines.append("a 0 detach:%s:%d" % (rng.choice("ddr"), c))
+            lines.append("a 0 %s" % rng.choice(["end", "pause", "park"]))
+            for c in range(1, n + 1):
+                for _ in range(j):
+                    lines.append("a %d %s" % (c, rng.choice(["pause", "pause", "swap"])))
+                lines.append("a %d end" % c)
+            lines.append("m " + rng.choice(["start:0", "detach:d:0"]))
+        elif kind == "chain":     # c parks; c+1 wakes c (discard or await); ordinary code kicks the last one
+            for c in range(n):
+                lines.append("a %d %s" % (c, rng.choice(["park", "park", "parkn"])))
+                if c:
+                    lines.append("a %d wake:%s:%d" % (c, rng.choice("da"), c - 1))
+                lines.append("a %d %s" % (c, rng.choice(["pause", "end", "park"])))
+            lines.append("m wake:d:%s" % ",".join(map(str, range(n))))
+            lines.append("m wake:%s:%d" % (rng.choice("dr"), n - 1))
+            lines.append("m wake:d:%s" % ",".join(map(str, range(n))))
+        elif kind == "tree":      # every coroutine spawns two children, one nested, one awaited
+            for c in range(n):
+                kids = [k for k in (2 * c + 1, 2 * c + 2) if k < 2 * n]
+                for k in kids:
+                    lines.append("a %d %s:%d" % (c, rng.choice(["start", "call", "detach:d", "detach:a"]), k))
+                lines.append("a %d %s" % (c, rng.choice(["pause", "park", "end"])))
+                for k in kids:
+                    if rng.random() < 0.7:
+                        lines.append("a %d join:%d" % (c, k))
+            lines.append("m start:0")
+            lines.append("m wake:d:%s" % ",".join(map(str, range(2 * n))))
+        else:                     # fan: one suspend point with many handles, dropped or awaited, straight or reversed
+            k = rng.randint(2, 9)
+            ids = list(range(1, k + 1))
+            for c in ids:
+                lines.append("a %d park" % c)
+                lines.append("a %d %s" % (c, rng.choice(["pause", "end", "wake:d:0"])))
+            lines.append("a 0 wake:d:%s" % ",".join(map(str, ids)))
+            lines.append("a 0 park")
+            rng.shuffle(ids)
+            lines.append("a 0 %s:%s:%s" % (rng.choice(["wake", "gather"]), rng.choice("da"), ",".join(map(str, ids))))
+            lines.append("a 0 pause")
+            lines.append("m start:0")
+            lines.append("m wake:d:0")
+        if rng.random() < 0.3:
+            i = next(k for k, l in enumerate(lines) if l.startswith("m "))
+            lines.insert(i, "m enter")
+            if rng.random() < 0.5:
+                lines.append("m leave")
+        lines.append("end")
+        return {"id": 0, "lines": lines}
+
     def gen_cases(self, rng, tier):
-        n = 900 if tier == "quick" else 40000
-        return [self.gen_case(rng, tier) for _ in range(n)]
+        n = 6000 if tier == "quick" else 200000
+        return [self.gen_template(rng) if rng.random() < 0.12 else self.gen_case(rng, tier) for _ in range(n)]
 
     # ---- evaluation -----------------------------------------------------------------------------------
     def oracle(self, case, out):
@@ -472,7 +529,7 @@ class C05(Spec):
                   "= one act (wake discard/await, park, pause, detach, start, co_await async, future await, co_return, "
                   "install_queue_and_call enter/leave) by whoever runs; no-preempt, FIFO (enq = deq ++ ready), exactly-once, pause "
                   "round-robin, no re-entry, full drain proved for every act list, i.e. every program, any number of coroutines; the "
-                  "model is tied to the headers by running ~1k/40k generated programs through real cocls::async coroutines and the "
+                  "model is tied to the headers by running 6k/200k generated programs through real cocls::async coroutines and the "
                   "model and diffing the complete event traces; a trace oracle evaluates the statement on the implementation's trace")
     level_note = ("trusted: Lean kernel (axioms propext/Classical.choice/Quot.sound at most), the hand-written model "
                   "lean/CoclsModel/Exec.lean, the differential harness (sampling), the C++ compiler's coroutine lowering, the "
